@@ -156,9 +156,8 @@ DocFrom(toks, i) == IF i > Len(toks) THEN "" ELSE TokText(toks[i]) \o DocFrom(to
 Doc(toks) == DocFrom(toks, 1)
 
 IsTag(k) == k.t \in {"start", "end"}
-\* element skeleton: the start/end tags with the attribute NAMES; attribute skeleton: with the values
-Skel(toks) == LET tg == SelectSeq(toks, IsTag) IN
-              [i \in DOMAIN tg |-> [t |-> tg[i].t, name |-> tg[i].name, an |-> [j \in DOMAIN tg[i].atts |-> tg[i].atts[j].n]]]
+\* element skeleton: the start/end tags; attribute skeleton: the attribute lists (names and values) of the start tags
+Skel(toks) == LET tg == SelectSeq(toks, IsTag) IN [i \in DOMAIN tg |-> [t |-> tg[i].t, name |-> tg[i].name]]
 AttrSkel(toks) == LET tg == SelectSeq(toks, IsTag) IN [i \in DOMAIN tg |-> [t |-> tg[i].t, name |-> tg[i].name, atts |-> tg[i].atts]]
 RECURSIVE TextFrom(_, _)
 TextFrom(toks, i) ==      \* character data: text tokens, and values written raw on request (`structure`)
